@@ -227,7 +227,9 @@ def reachable(root, maxdepth=4):
         if d >= maxdepth:
             continue
         attrs = _own_attrs(o)
-        for k, v in attrs.items():
+        # (sorted: deleting and restoring an attribute moves it to the end of __dict__; the path under
+        # which an object reachable twice is recorded must not depend on that)
+        for k, v in sorted(attrs.items(), reverse=True):
             if k in ('__globals__', '__builtins__', '__code__', '__doc__', '__module__',
                      '__name__', '__qualname__', '__annotations__', '__defaults__', '__kwdefaults__'):
                 continue
@@ -246,10 +248,21 @@ def reachable(root, maxdepth=4):
 
 
 def snapshot(root):
+    """Attribute names and value identities of every reachable object; for a signature object
+    stored in an attribute (f.__signature__ = ...) also its content -- parameters, provenance
+    map, every list in it, depths -- because retrieval reads it and must leave it as it is."""
+    from .sigutil import deep_snapshot
     snap = {}
     for path, o in reachable(root):
         attrs = _own_attrs(o)
-        snap[path] = (id(o), tuple(sorted((k, id(v)) for k, v in attrs.items())))
+        items = [(k, id(v)) for k, v in attrs.items()]
+        for k, v in attrs.items():
+            if isinstance(v, inspect.Signature):
+                try:
+                    items.append((k + ' (content of the stored signature object)', hash(repr(deep_snapshot(v)))))
+                except Exception:
+                    pass
+        snap[path] = (id(o), tuple(sorted(items)))
     return snap
 
 
@@ -492,6 +505,22 @@ class Guarded(object):
     def __call__(self, a, *args, **kwargs): return self.__wrapped__(1, *args, **kwargs)
 f = Guarded(inner)
 ''', 'f', 'sigtools'),
+    ('signature-attr-upgraded-empty-provenance', '''
+def f(a, *args, **kwargs): return inner(*args, **kwargs)
+f.__signature__ = signatures.signature(f).replace(sources={})
+''', 'f', 'sigtools'),
+    ('signature-attr-upgraded-empty-provenance-noauto', '''
+def f(a, *args, **kwargs): return inner(*args, **kwargs)
+f.__signature__ = signatures.signature(f).replace(sources={})
+''', 'f', 'noauto'),
+    ('signature-object-shared-by-two-functions', '''
+def f(a, *args, **kwargs): return inner(*args, **kwargs)
+def h(a, *args, **kwargs): return inner(*args, **kwargs)
+shared = signatures.signature(inner2)
+f.__signature__ = shared
+h.__signature__ = shared
+f.sibling = h
+''', 'f', 'sigtools'),
     ('lru-cache', '''
 @functools.lru_cache()
 def f(a, *args, **kwargs): return 1
@@ -661,6 +690,73 @@ def render_outcome(out):
     return 'raised ' + type(v).__name__
 
 
+GUARD_SRC = PRELUDE + '''
+import threading
+entered = threading.Event()
+release = threading.Event()
+def slow_forger(obj):
+    entered.set()
+    release.wait(10)
+    return signatures.signature(inner)
+def quick_forger(obj):
+    return signatures.signature(inner2)
+class Slow(object):
+    __signature__ = specifiers.as_forged
+    def __call__(self, *args, **kwargs): return inner(*args, **kwargs)
+class Quick(object):
+    __signature__ = specifiers.as_forged
+    def __call__(self, *args, **kwargs): return inner2(*args, **kwargs)
+slow = specifiers.set_signature_forger(Slow(), slow_forger)
+quick = specifiers.set_signature_forger(Quick(), quick_forger)
+'''
+
+
+def run_guard_while_another_thread_computes(ctx):
+    """'After sigtools.signature(f) returns ... the recursion guard behind as_forged is empty':
+    also while ANOTHER thread is suspended in the middle of computing a forged signature (inside a
+    user-supplied forger).  Deterministic: the other thread is parked on an event."""
+    import threading
+    import sigtools
+    g = sigs.compile_module(GUARD_SRC, tag='vguard')
+    result = {}
+
+    def other():
+        try:
+            result['a'] = str(inspect.signature(g['slow']))
+        except Exception as e:
+            result['a'] = 'raised %s' % type(e).__name__
+    t = threading.Thread(target=other)
+    t.start()
+    try:
+        if not g['entered'].wait(10):
+            ctx.inconclusive.append('guard scenario: the other thread never reached its forger')
+            return
+        rp = dict(workload='guard-threads')
+        for label, op in (('sigtools.signature(quick)', lambda: sigtools.signature(g['quick'])),
+                          ('inspect.signature(quick)', lambda: inspect.signature(g['quick'])),
+                          ('sigtools.signature(plain function)', lambda: sigtools.signature(g['inner2']))):
+            ctx.evaluated()
+            ctx.count('C16.guard_checked_while_other_thread_computes')
+            try:
+                got = str(op())
+            except Exception as e:
+                got = 'raised %s' % type(e).__name__
+            held = guard_state()
+            ctx.nontrivial(('guard-threads', label))
+            if held:
+                ctx.violation('C16', 'FaultMonitor', 'guard-not-empty-after-return-while-other-thread-computes',
+                              'after %s returned, the recursion guard seen by the retrieving thread holds %d object(s) (another thread is in the middle of a forged-signature computation)' % (label, len(held)),
+                              {'retrieval': label, 'result': got, 'guard': [type(o).__name__ for o in held]}, rp)
+                break
+    finally:
+        g['release'].set()
+        t.join(20)
+    ctx.evaluated()
+    if guard_state():
+        ctx.violation('C16', 'FaultMonitor', 'guard-not-empty-at-quiescence', 'the recursion guard is not empty after all threads finished',
+                      {'other_thread_result': result.get('a')}, dict(workload='guard-threads'))
+
+
 def run(ctx):
     names = [s[0] for s in SCENARIOS]
     try:
@@ -668,6 +764,8 @@ def run(ctx):
             run_scenario(ctx, name)
     finally:
         INJ.uninstall()
+    if ctx.shard == 0:
+        run_guard_while_another_thread_computes(ctx)
     ctx.extra.pop('_fault_seq', None)
     if ctx.tier == 'thorough':
         ctx.exhaustive['crash points of each scenario x %d exception classes' % len(EXC_CLASSES)] = True
@@ -677,6 +775,8 @@ def run(ctx):
 
 
 def replay(ctx, rec):
+    if rec.get('workload') == 'guard-threads':
+        return run_guard_while_another_thread_computes(ctx)
     try:
         only = (rec['crossing'], rec['exc']) if rec.get('crossing') else None
         run_scenario(ctx, rec['scenario'], only=only)
